@@ -210,9 +210,17 @@ class AFMReader(TextToModel):
 
         if isinstance(expression, AFMParser.AtomContext):
             if expression.variable() is not None:
-                var_name = prefix + expression.variable().getText()
+                var_name = expression.variable().getText()
+                if var_name[:1].islower():
+                    # inside a block 'F { ... }' only a bare attribute name is relative to F;
+                    # feature names and qualified attributes start with a capital
+                    var_name = prefix + var_name
             if expression.number() is not None:
-                var_name = expression.number().getText()
+                # numbers belong to arithmetic and relational expressions (not supported): as an
+                # operand of a logical operator they would be reported as features
+                raise FlamaException(
+                    f"Constraints not supported in AFM Reader: {expression.number().getText()}."
+                )
             result = Node(var_name)
 
         binary_operation_types = [
